@@ -45,19 +45,24 @@ MANIFEST = {
                  "correspondence (real resolver vs `resolve`, real interpreter vs `accepts`) on generated multi-module source files + the statements "
                  "of the transcribed functions regenerated from the source and pinned by tie theorems",
     "text": "Theorems in lean/Jap/Props/C13.lean prove, for every well-formed program (any hierarchy depth, any MRO linearisation given as input, "
-            "any number of modules with their own global tables and constants: C13_exact_modules), that the names offered by the model of "
-            "_parameter_resolvers.py are exactly the names the model of Python's call binding accepts, that hard-coded arguments are not offered, "
-            "that every offered parameter carries the type/default of a definition of the program, that the globals of a module holding no program "
-            "text are irrelevant (C13_foreign_globals_irrelevant) and that the fuel bound suffices; the model is tied to the code by comparing it with "
-            "get_signature_parameters/add_class_arguments and with the real interpreter on generated packages of 1-3 modules written to disk, and "
-            "by 31 tie_* theorems over the regenerated statements of the functions it transcribes (Gen/ResolverSites.lean).",
+            "any number of modules with their own global tables and constants: C13_exact_modules, whose two extra decidable hypotheses "
+            "noForeignTwoArgSuper / noShadowedLocalImport are exactly the complements of the two by-name lookups the resolver does differently from "
+            "Python, both transcribed in the model and refuted on witnesses), that the names offered by the model of _parameter_resolvers.py are "
+            "exactly the names the model of Python's call binding accepts, that hard-coded arguments are not offered, that every offered parameter "
+            "carries the type/default of a definition of the program, that the run-time binder of a name is a definition of the program and equals "
+            "the offered parameter for the visited signature (C13_binder_own) and whenever all definitions of the name agree "
+            "(C13_type_default_partial), that the globals of a module holding no program text are irrelevant and that the fuel bound suffices; the "
+            "model is tied to the code by comparing it with get_signature_parameters/add_class_arguments and with the real interpreter (acceptance "
+            "and the traced run-time binder) on generated packages of 1-3 modules written to disk, and by 31 tie_* theorems over the regenerated "
+            "statements of the functions it transcribes (Gen/ResolverSites.lean).",
     "level_note": "Trusted: Lean kernel; axioms propext/Quot.sound/Classical.choice only; the generator/renderer of the mini language; the correspondence "
-                  "harness (it reads the per-module global tables, like the MROs, off the imported modules). Outside the model: patterns not in the "
-                  "grammar (*args forwarding, method overriding, two super() calls in one body, dict(p=1, **kwargs) entries on the attribute path, "
-                  "attribute use never exercised, function-local imports, `import a.b` packages, identifiers rebound after import), the by-name lookup "
-                  "of X in super(X, self) when the class asked for lives in another module (open finding C13-two-arg-super-foreign-module, oracle "
-                  "only), an import inside a function body shadowed by a module global of the same identifier (open finding "
-                  "C13-local-import-shadowed-by-module-global, oracle only), stubs/pydantic/attrs resolvers, the assumptions fallback.",
+                  "harness (it reads the per-module global tables, like the MROs, off the imported modules). Not proved: type/default agreement for a "
+                  "name defined with different signatures at several places of one call chain other than the visited signature (compared on every "
+                  "generated program: model binder vs traced interpreter vs offered). Outside the model: patterns not in the grammar (*args "
+                  "forwarding, method overriding, two super() calls in one body, dict(p=1, **kwargs) entries on the attribute path, attribute use "
+                  "never exercised, `import a.b` packages, identifiers rebound after import, kwargs[n] = v, instances with __call__ and "
+                  "functools.partial objects as callees, `d = dict(**kwargs); f(**d)` in a plain function — the resolver does not follow it), "
+                  "stubs/pydantic/attrs resolvers, the assumptions fallback.",
 }
 
 FIND_GET = "C13-get-forward"
@@ -375,7 +380,7 @@ def module_refs(prog, m):
     return out
 
 
-def namespace_ok(prog):
+def namespace_ok(prog, allow_shadow=False):
     """every module binds each identifier once (own definitions, `from lib import name [as alias]`, and the names imported inside
     function bodies: a local import never shadows a module global); base classes are not written qualified / imported locally"""
     for m in range(n_mods(prog)):
@@ -388,7 +393,8 @@ def namespace_ok(prog):
             elif st == "local":
                 if hows - {"call", "cmeth"}:
                     return False
-                names.append(pyname(prog["entries"][i]))
+                if not allow_shadow:
+                    names.append(pyname(prog["entries"][i]))
             elif st == "alias":
                 names.append("al%d" % i)
             else:
@@ -498,7 +504,26 @@ def gen_callable(rng, entries, bases_of, self_idx, where, knobs):
         if rng.random() < knobs["p_nested"]:
             add_nested(rng, fw, own, knobs["p_get"])
         uses.append({"g": "a", "u": fw})
+        add_noise(rng, c, fw, entries, bases_of, knobs)
     return c
+
+
+def add_noise(rng, c, fw, entries, bases_of, knobs):
+    """`kwargs.setdefault(n, v)` before the single forwarding call, for a name n the statically expected callee takes
+    by keyword and the call does not hard-code (else the body could never run): neither consumes nor forwards, the model does not see them"""
+    if rng.random() >= knobs.get("p_noise", 0) or "call" not in fw or fw["call"]["t"][0] != "entry":
+        return
+    i = fw["call"]["t"][1]
+    callee = entries[i]["c"] if entries[i]["kind"] == "fn" else static_init(entries, bases_of, i)
+    if callee is None:
+        return
+    h = fw["call"]
+    ok = [p for n_, p in enumerate(callee["params"]) if not (p["kind"] == "pk" and n_ < h["k"]) and p["name"] not in h["given"] and p["ty"] is not None]
+    if not ok:
+        return
+    p = rng.choice(ok)
+    # (`kwargs[n] = v` is not generated: it DISCARDS the caller's value, so the name is accepted and offered but bound by nobody)
+    c["noise"] = [["setdefault", p["name"], ATOM_VALUE[TYPE_ATOMS[p["ty"]][-1]]]]
 
 
 def valid_bases(bases_of, idx_new, bases):
@@ -515,7 +540,7 @@ def valid_bases(bases_of, idx_new, bases):
 
 def gen_program(rng, knobs=None):
     """a random program of the mini language (harness form: the model JSON plus python names/values)"""
-    knobs = dict({"p_get": 0.08, "p_unused": 0.04, "p_cond": 0.10, "p_const": 0.08, "p_noinit": 0.2, "p_nested": 0.3, "p_multi": 0.45, "p_samename": 0.35},
+    knobs = dict({"p_get": 0.08, "p_unused": 0.04, "p_cond": 0.10, "p_const": 0.08, "p_noinit": 0.2, "p_nested": 0.3, "p_multi": 0.45, "p_samename": 0.35, "p_inst": 0.0, "p_noise": 0.12},
                  **(knobs or {}))
     n_cls = rng.choice([1, 2, 3, 3, 4, 4, 5, 6])
     n_fn = rng.choice([0, 0, 1, 2, 3])
@@ -527,6 +552,11 @@ def gen_program(rng, knobs=None):
             e = {"kind": "fn", "name": "f%d" % idx, "c": None}
             entries.append(e)
             e["c"] = gen_callable(rng, entries, bases_of, idx, "fn", knobs)
+            if not e["c"]["varkw"] and rng.random() < knobs["p_inst"]:
+                # written as an instance of a class with __call__ (for the model: a function).  OFF by default (p_inst = 0): for some
+                # signatures (e.g. an un-annotated keyword-only parameter) get_signature_parameters(instance) logs "'_C5' object has no
+                # attribute '__name__'" and returns nothing — instances are not among the documented forwarding targets
+                e["inst"] = True
             continue
         prev = [i for i in bases_of]
         bases = []
@@ -659,6 +689,8 @@ def render_body(c, prog, self_idx, tag, ind, modnames=None):
     flip = flipped(prog, mod_of(prog["entries"][self_idx]))
     out = [ind + ("_T(%r, locals(), %r)" % (tag, kwn) if c["varkw"] else "_T(%r, locals())" % tag)]
     out += [ind + l for l in local_imports(prog, mod_of(prog["entries"][self_idx]), c, modnames) if not attr_use_of(c)]
+    for kind, nm, v in (c.get("noise") or []) if c["varkw"] else []:
+        out.append(ind + ("%s.setdefault(%r, %s)" % (kwn, nm, lit(v)) if kind == "setdefault" else "%s[%r] = %s" % (kwn, nm, lit(v))))
     uses = c["uses"] if c["varkw"] else []
     i, n = 0, 0
     branch_ids = sorted({g["g"]["branch"] for g in uses if isinstance(g["g"], dict) and "branch" in g["g"]})
@@ -724,6 +756,12 @@ def render_module(prog, m, modnames):
     for idx, e in enumerate(prog["entries"]):
         if mod_of(e) != m:
             continue
+        if e["kind"] == "fn" and e.get("inst"):
+            out.append("class _C%d:" % idx)
+            out.append("    def __call__(%s):" % render_sig(e["c"], "self"))
+            out.extend(render_body(e["c"], prog, idx, e["name"], "        ", modnames))
+            out += ["", "", "%s = _C%d()" % (pyname(e), idx), "", ""]
+            continue
         if e["kind"] == "fn":
             out.append("def %s(%s):" % (pyname(e), render_sig(e["c"], None)))
             out.extend(render_body(e["c"], prog, idx, e["name"], "    ", modnames))
@@ -775,6 +813,7 @@ def render(prog, modnames=None):
 
 # ---------------------------------------------------------------- temp package
 _PKG = {"dir": None, "n": 0}
+_BINDER = {"compared": 0}
 
 
 def pkg_dir():
@@ -840,9 +879,9 @@ def real_globals(prog, mod, syms):
     for m in range(n_mods(prog)):
         tbl = []
         for s, k in sorted(syms.items(), key=lambda x: x[1]):
+            if s.startswith("@"):  # bound by an import statement in a function body, not by any module (`localImp` of the model)
+                continue
             obj = mod.mods[m]
-            if s.startswith("@"):  # bound by `from lib import name` executed in the function body: what the library module holds
-                s, obj = s[1:].split(".", 1)[1], mod.mods[int(s[2:].split(".")[0])]
             for part in s.split("."):
                 obj = getattr(obj, mod.mods[int(part[1:])].__name__ if re.fullmatch(r"M\d+", part) else part, None)
             if obj is not None and id(obj) in by_obj:
@@ -916,9 +955,19 @@ def to_model(prog, mros, mod):
         return visible_cmeths(prog, mros, sub)
 
     syms = {}
+    for e in prog["entries"]:  # the identifiers themselves (`__name__`s; what a module binds under them)
+        syms.setdefault(pyname(e), len(syms))
+    local_imp = {}
+
+    def sym_for(m, i):
+        s = symref(prog, m, i)
+        k = syms.setdefault(s, len(syms))
+        if s.startswith("@"):  # bound by an import statement inside the body: (library module, identifier)
+            local_imp[k] = [mod_of(prog["entries"][i]), syms[pyname(prog["entries"][i])]]
+        return k
 
     def mc(c, m):
-        return m_callable(c, vis, lambda i: syms.setdefault(symref(prog, m, i), len(syms)), flipped(prog, m))
+        return m_callable(c, vis, lambda i: sym_for(m, i), flipped(prog, m))
 
     es, cm_def = [], []
     for i, e in enumerate(prog["entries"]):
@@ -933,6 +982,7 @@ def to_model(prog, mros, mod):
             cm_def.append([o for o, _ in vis(i)])
     tables = real_globals(prog, mod, syms)
     return {"entries": es, "modOf": [mod_of(e) for e in prog["entries"]], "cmDef": cm_def,
+            "nameSym": [syms[pyname(e)] for e in prog["entries"]], "localImp": [[k, v] for k, v in sorted(local_imp.items())],
             "mods": [{"globals": tables[m], "flip": flipped(prog, m)} for m in range(n_mods(prog))]}
 
 
@@ -1330,7 +1380,8 @@ def sig_local_import_shadowed(prog, mros, q):
 
 
 def outside_model(prog, mros, q):
-    """queries whose resolution uses a by-name lookup the model does not transcribe (open findings; interpreter side and oracle only)"""
+    """queries on which the resolver's by-name lookups differ from Python's (open findings; transcribed by `linkS` of the model,
+    excluded from C13_exact_modules by `noForeignTwoArgSuper` / `noShadowedLocalImport`; counted in the evidence)"""
     return sig_super2_foreign(prog, mros, q) or sig_local_import_shadowed(prog, mros, q)
 
 
@@ -1673,7 +1724,11 @@ def features(prog, mros):
                 f.add("no-own-init")
             if any(o != i for o, _ in visible_cmeths(prog, mros, i)):
                 f.add("inherited-classmethod")
+    if any(e.get("inst") for e in prog["entries"]):
+        f.add("instance with __call__ as callee")
     for tag, c in tagged_callables(prog):
+        for kind, _, _ in c.get("noise") or []:
+            f.add("kwargs.%s before the forwarding call" % ("setdefault(n, v)" if kind == "setdefault" else "[n] = v"))
         if any(p["kind"] == "ko" for p in c["params"]):
             f.add("keyword-only")
         if any(p["dflt"] is None for p in c["params"]):
@@ -1729,9 +1784,7 @@ def corr_disagreements(prog, mod, mros, q, names, res, obs=None):
     """compare one query: real resolver vs model `resolve`, real interpreter vs model `accepts`"""
     out = []
     real, crashed, failed = real_resolve(prog, mod, q)
-    if outside_model(prog, mros, q):
-        pass  # `super(X, self)` found BY NAME in the module of the class asked for / local import behind a module global: interpreter side only
-    elif (res["out"] == "crash") != crashed:
+    if (res["out"] == "crash") != crashed:
         out.append({"side": "resolve", "what": "AST-resolver AttributeError fallback: real %s, model %s" % (crashed, res["out"]), "real": real, "model": res["out"]})
     elif res["out"] == "ok":
         mp = model_params(res)
@@ -1744,6 +1797,19 @@ def corr_disagreements(prog, mod, mros, q, names, res, obs=None):
         ia = interp_accepts(obs, n)
         if ia is not None and ia != ma:
             out.append({"side": "accepts", "what": "interpreter %s, model %s for %s=" % (ia, ma, n), "name": n})
+    # the definition that binds the name at run time: traced interpreter vs model `binder` (programs without an if-chain:
+    # one execution per name)
+    if "binder" in res and obs["complete"] and len(obs["sels"]) == 1 and obs["sels"][0] is not None:
+        o = obs["sels"][0]
+        for n, mb in zip(names, res["binder"]):
+            if n not in o["trace"] or o["acc"].get(n) is not True:
+                continue
+            og = origin_of(prog, mod, n, o["trace"][n], o["sel"])
+            real_b = None if og is None or og["by"].endswith(":get") else (sorted(og["ty"]), og["dflt"])
+            _BINDER["compared"] += 1
+            model_b = None if mb is None else (sorted(mb["ty"]), None if mb["dflt"] is None else mb["dflt"].get("tok"))
+            if real_b != model_b:
+                out.append({"side": "binder", "what": "run-time binder of %s=: interpreter %r (%s), model %r" % (n, real_b, og and og["by"], model_b), "name": n})
     return out
 
 
@@ -1885,8 +1951,10 @@ def module_family(thorough):
         if qual:
             user_mod[qual].append(0)
         prog = {"entries": entries, "mods": [{"flip": flips[0], "qual": []}, user_mod]}
-        if not namespace_ok(prog):
-            continue  # (an import inside the body next to a module global of the same name: not generated)
+        if not namespace_ok(prog, allow_shadow=True):
+            continue
+        # (an import inside the body next to a module global of the same identifier — open finding
+        #  C13-local-import-shadowed-by-module-global — is part of this family only; the random generator never writes it)
         out.append(prog)
     return out
 
@@ -1956,7 +2024,8 @@ def process(ctx, progs, T, parser_every, is_corpus=False):
                         ctx.violation("model and code disagree (%s): %s" % (dis[0]["side"], dis[0]["what"]),
                                       {"kind": "corr", "prog": small, "q": q, "source": render(small)}, found_input=False)
             # ---- property oracle
-            in_theorem = res_p is not None and res_p["wf"] and res_p["results"][qi]["out"] == "ok" and not outside_model(prog, mros, q)
+            # hypotheses of C13_exact_modules: WfProg of the linked program, the resolver's two by-name lookups agree with Python's
+            in_theorem = res_p is not None and res_p["wf"] and res_p.get("agree", True) and res_p["results"][qi]["out"] == "ok"
             if outside_model(prog, mros, q):
                 T.n_outside += 1
             if in_theorem:
@@ -2033,11 +2102,17 @@ def run(ctx: Ctx):
         "modules: entries are assigned to contiguous ranges (a module imports only from earlier ones); a module binds what it defines and what its "
         "text names; per-module global tables and the defining class of every inherited classmethod are read off the imported modules (inputs of "
         "`link`, like the MROs); an identifier that is not bound is never called (NameError programs are not generated)",
-        "`super(X, self)` is written for X = the class being defined only; a class without own __init__ that inherits such a call into a module that "
-        "does not bind X is outside the model (open finding C13-two-arg-super-foreign-module): interpreter side and oracle only",
+        "`super(X, self)` is written for X = the class being defined only; the resolver's search for X BY NAME in the module of the class asked for "
+        "is transcribed (`superPairs` / `Prog.superMap` of `linkS`; open finding C13-two-arg-super-foreign-module), the harness supplies the "
+        "`__name__` symbol of every entry",
         "import styles per (module, imported entry): `from lib import f`, `from lib import f as al<i>`, `import lib` + `lib.f(**kwargs)` (plain calls only), "
         "`from lib import f` as first statement of the calling body (calls and Cls.factory calls only; never next to a module global of the same "
-        "identifier — that corner is the open finding C13-local-import-shadowed-by-module-global, corpus only)",
+        "identifier in random programs — that corner, open finding C13-local-import-shadowed-by-module-global, is transcribed by `MProg.lookup true` and "
+        "generated by the two-module family and the corpus)",
+        "`kwargs.setdefault(n, v)` before the single forwarding call (n a keyword the expected callee takes and the call does not hard-code) is written "
+        "by the renderer only: it neither consumes nor forwards, the model has no statement for it",
+        "run-time binder: the traced interpreter's first consumer of the probed name (origin_of) vs the model's `binder`, on programs without an "
+        "if-chain; a `kwargs.get` is nobody's binder",
         "the generator's renderer is the meaning of the mini language (one python statement per Use)",
         "method and classmethod names are unique per hierarchy (no overriding), at most one super() call per body and it is the last forwarding call",
         "attribute use: `self._kwN = kwargs` (or dict() + update(**kwargs)) is forwarded by ONE method/property of the same class to a function/class, "
@@ -2111,6 +2186,7 @@ def run(ctx: Ctx):
     ctx.extra["queries_not_instantiable"] = T.n_uninst
     ctx.extra["parser_surface_checked"] = T.n_parser
     ctx.extra["correspondence_disagreements"] = T.n_dis
+    ctx.extra["runtime_binder_comparisons"] = _BINDER["compared"]
 
 
 def replay(ctx: Ctx, body):
